@@ -261,14 +261,9 @@ theorem crashed_foldlW {α : Type} (f : World → α → World) (h : ∀ w a, (f
 theorem crashed_routeAnswer (s s' : St) (m : AMsg) (cid : Nat) (h : routeAnswer s m = .ok (s', cid)) :
     s'.crashed = s.crashed := by
   unfold routeAnswer at h
-  split at h
-  · contradiction
-  · dsimp only at h
-    split at h
-    · contradiction
-    · split at h
-      · injection h with h; injection h with h1 h2; subst h1; rfl
-      · contradiction
+  simp only [] at h
+  repeat (first | contradiction | split at h)
+  all_goals (first | contradiction | (injection h with h; injection h with h1 h2; subst h1; rfl))
 
 @[simp] theorem crashed_routeAnswerSideEffect (s : St) (m : AMsg) : (routeAnswerSideEffect s m).crashed = s.crashed := by
   unfold routeAnswerSideEffect
